@@ -152,6 +152,121 @@ pub fn oracle(args: &Args) {
             println!("moves {}", ms.join(" "));
             println!("incheck {}", p.in_check(p.stm));
         }
+        // games --n N --seed S [--max-plies P]: random legal games with the expected final
+        // position (under each target-recording convention) and the expected reply set
+        "games" => {
+            let n = args.u64("--n", 100);
+            let seed = args.u64("--seed", 1);
+            let max_plies = args.u64("--max-plies", 120);
+            let roots = gen::corpus_roots();
+            let mut rng = Rng::new(seed, 777);
+            let mut made = 0;
+            while made < n {
+                let from_start = rng.chance(1, 2);
+                let root = if from_start { Pos::start() } else { rng.pick(&roots).clone() };
+                let mut p = root.clone();
+                let mut moves: Vec<String> = vec![];
+                let len = match rng.below(6) {
+                    0 => 0,
+                    1 => rng.below(8),
+                    5 => max_plies * 4,
+                    _ => rng.below(max_plies),
+                };
+                let mut feats = std::collections::BTreeSet::new();
+                for _ in 0..len {
+                    let legal = p.legal_moves();
+                    if legal.is_empty() || p.hmc >= 140 {
+                        break;
+                    }
+                    let m = gen::pick_move(&p, &legal, &mut rng);
+                    if m.castle {
+                        feats.insert("castle");
+                    }
+                    if m.ep {
+                        feats.insert("ep");
+                    }
+                    match m.promo {
+                        Some(Kind::Q) => {
+                            feats.insert("promo_q");
+                        }
+                        Some(Kind::R) => {
+                            feats.insert("promo_r");
+                        }
+                        Some(Kind::B) => {
+                            feats.insert("promo_b");
+                        }
+                        Some(Kind::N) => {
+                            feats.insert("promo_n");
+                        }
+                        _ => {}
+                    }
+                    p = p.make(m);
+                    moves.push(m.uci());
+                }
+                let mut replies: Vec<String> = p.legal_moves().iter().map(|m| m.uci()).collect();
+                replies.sort();
+                println!(
+                    "game\t{}\t{}\t{}\t{}\t{}\t{}\t{}",
+                    if from_start { "startpos".to_string() } else { root.to_fen(EpConv::Always) },
+                    moves.join(" "),
+                    p.to_fen(EpConv::Always),
+                    p.to_fen(EpConv::Adjacent),
+                    p.to_fen(EpConv::Legal),
+                    replies.join(" "),
+                    feats.into_iter().collect::<Vec<_>>().join(",")
+                );
+                made += 1;
+            }
+        }
+        // positions --n N --seed S: non-terminal legal positions (root + moves) with their legal moves
+        "positions" => {
+            let n = args.u64("--n", 100);
+            let seed = args.u64("--seed", 1);
+            let roots = gen::corpus_roots();
+            let mut rng = Rng::new(seed, 778);
+            let mut made = 0;
+            while made < n {
+                let root = if rng.chance(1, 3) { Pos::start() } else { rng.pick(&roots).clone() };
+                let mut p = root.clone();
+                let mut moves: Vec<String> = vec![];
+                for _ in 0..rng.below(60) {
+                    let legal = p.legal_moves();
+                    if legal.is_empty() {
+                        break;
+                    }
+                    let m = gen::pick_move(&p, &legal, &mut rng);
+                    let nx = p.make(m);
+                    if nx.legal_moves().is_empty() {
+                        break;
+                    }
+                    p = nx;
+                    moves.push(m.uci());
+                }
+                let mut replies: Vec<String> = p.legal_moves().iter().map(|m| m.uci()).collect();
+                if replies.is_empty() {
+                    continue;
+                }
+                replies.sort();
+                println!("pos\t{}\t{}\t{}\t{}", root.to_fen(EpConv::Always), moves.join(" "), p.to_fen(EpConv::Always), replies.join(" "));
+                made += 1;
+            }
+        }
+        // hostile --n N --seed S: corrupted FEN texts with our own verdict on rank widths
+        "hostile" => {
+            let n = args.u64("--n", 100);
+            let seed = args.u64("--seed", 1);
+            let roots = gen::corpus_roots();
+            let mut rng = Rng::new(seed, 779);
+            let mut l = Local::default();
+            for _ in 0..n {
+                let base = rng.pick(&roots).to_fen(EpConv::Adjacent);
+                let t = crate::mon_fen::mutate(&base, &mut rng, &mut l);
+                if t.contains('\n') || t.contains('\r') || t.contains('\0') {
+                    continue;
+                }
+                println!("text\t{}", t);
+            }
+        }
         _ => {
             eprintln!("unknown oracle command {what}");
             std::process::exit(2);
